@@ -1,3 +1,198 @@
-/-! # C10 — property theorems (to be written) -/
+import BddVerif.Lemmas.NormalFormExt
+/-!
+# C10 — normal-form construction and extraction preserve the function
+
+Property theorems about the model `Model/NormalForm.lean` (helper lemmas: `Lemmas/NormalForm*.lean`).
+
+Vocabulary
+* `PVal` — the raw `Vec<Option<bool>>` of a `BddPartialValuation`; `c.get x` is `get_value`.
+* `InRange n c` — every fixed variable of `c` is `< n` (what `mk_conjunctive_clause` asserts).
+* `conjFn c` / `disjFn c` — the conjunctive / disjunctive reading of a clause; `dnfFn cs` / `cnfFn cs` — a list.
+* `Sem n A f` — `A = canon n f` and `f` only looks at the first `n` variables: `A` IS the canonical array of `f`
+  (hence `den A = f`, and any two arrays with `Sem n · f` are equal).
+-/
 namespace B.Props.C10
+open B B.NF
+
+/-! ### the readings, in words -/
+
+theorem conjFn_iff (c : PVal) (v : Nat → Bool) :
+    conjFn c v = true ↔ ∀ x b, c.get x = some b → v x = b := B.NF.conjFn_iff c v
+
+theorem disjFn_iff (c : PVal) (v : Nat → Bool) :
+    disjFn c v = true ↔ ∃ x b, c.get x = some b ∧ v x = b := B.NF.disjFn_iff c v
+
+theorem dnfFn_iff (cs : List PVal) (v : Nat → Bool) :
+    dnfFn cs v = true ↔ ∃ c ∈ cs, ∀ x b, c.get x = some b → v x = b := by
+  unfold dnfFn
+  rw [List.any_eq_true]
+  constructor
+  · rintro ⟨c, hc, h⟩; exact ⟨c, hc, (B.NF.conjFn_iff c v).1 h⟩
+  · rintro ⟨c, hc, h⟩; exact ⟨c, hc, (B.NF.conjFn_iff c v).2 h⟩
+
+theorem cnfFn_iff (cs : List PVal) (v : Nat → Bool) :
+    cnfFn cs v = true ↔ ∀ c ∈ cs, ∃ x b, c.get x = some b ∧ v x = b := by
+  unfold cnfFn
+  rw [List.all_eq_true]
+  constructor
+  · intro h c hc; exact (B.NF.disjFn_iff c v).1 (h c hc)
+  · intro h c hc; exact (B.NF.disjFn_iff c v).2 (h c hc)
+
+/-! ### construction -/
+
+/-- `mk_dnf` on ANY list of clauses over the variable set (empty list, empty clause, duplicates — also with
+    vectors of different lengths —, overlapping and complementary clauses): no assertion fires, and the result
+    is the canonical array of the disjunction of the conjunctive clauses. -/
+theorem mk_dnf_spec (n : Nat) (cs : List PVal) (h : ∀ c ∈ cs, InRange n c) :
+    ∃ r, mkDnf n cs = .ok r ∧ r = canon n (dnfFn cs) ∧ numVars r = n ∧ ∀ v, den r v = dnfFn cs v := by
+  obtain ⟨r, e, s⟩ := mkDnfRec_spec n n cs (Nat.le_refl n) h
+    (by intro c _ d _ i hi; omega)
+  exact ⟨r, e, s.eq, s.numVars, s.den⟩
+
+/-- `mk_cnf`, dually: the canonical array of the conjunction of the disjunctive clauses -/
+theorem mk_cnf_spec (n : Nat) (cs : List PVal) (h : ∀ c ∈ cs, InRange n c) :
+    ∃ r, mkCnf n cs = .ok r ∧ r = canon n (cnfFn cs) ∧ numVars r = n ∧ ∀ v, den r v = cnfFn cs v := by
+  obtain ⟨r, e, s⟩ := mkCnfRec_spec n n cs (Nat.le_refl n) h
+    (by intro c _ d _ i hi; omega)
+  exact ⟨r, e, s.eq, s.numVars, s.den⟩
+
+/-- the canonical form in the shape used by the other properties: equal functions give equal arrays -/
+theorem mk_dnf_canon (n : Nat) (cs ds : List PVal) (hc : ∀ c ∈ cs, InRange n c) (hd : ∀ c ∈ ds, InRange n c)
+    (hsem : ∀ v, dnfFn cs v = dnfFn ds v) : mkDnf n cs = mkDnf n ds := by
+  obtain ⟨r, e, hr, _⟩ := mk_dnf_spec n cs hc
+  obtain ⟨r', e', hr', _⟩ := mk_dnf_spec n ds hd
+  rw [e, e', hr, hr', canon_congr hsem]
+
+theorem mk_cnf_canon (n : Nat) (cs ds : List PVal) (hc : ∀ c ∈ cs, InRange n c) (hd : ∀ c ∈ ds, InRange n c)
+    (hsem : ∀ v, cnfFn cs v = cnfFn ds v) : mkCnf n cs = mkCnf n ds := by
+  obtain ⟨r, e, hr, _⟩ := mk_cnf_spec n cs hc
+  obtain ⟨r', e', hr', _⟩ := mk_cnf_spec n ds hd
+  rw [e, e', hr, hr', canon_congr hsem]
+
+/-- `mk_conjunctive_clause` / `mk_disjunctive_clause`: the canonical array of the single clause when the
+    clause is over the variable set, the documented panic otherwise -/
+theorem clause_ctor_spec (n : Nat) (c : PVal) :
+    (InRange n c →
+      (∃ r, mkConjClause n c = .ok r ∧ r = canon n (conjFn c) ∧ numVars r = n ∧ ∀ v, den r v = conjFn c v) ∧
+      (∃ r, mkDisjClause n c = .ok r ∧ r = canon n (disjFn c) ∧ numVars r = n ∧ ∀ v, den r v = disjFn c v)) ∧
+    (¬ InRange n c → mkConjClause n c = .panic assertIndex ∧ mkDisjClause n c = .panic assertIndex) := by
+  refine ⟨fun h => ⟨?_, ?_⟩, fun h => ⟨mkConjClause_foreign h, mkDisjClause_foreign h⟩⟩
+  · have s := sem_mkPartialValuation h
+    exact ⟨_, mkConjClause_inRange h, s.eq, s.numVars, s.den⟩
+  · obtain ⟨r, e, s⟩ := mkDisjClause_inRange h
+    exact ⟨r, e, s.eq, s.numVars, s.den⟩
+
+/-! ### extraction -/
+
+/-- `to_dnf` of a reduced array: the loop ends within the fuel (no `panic "fuel"`), every clause is over the
+    variable set, and the clause list denotes the function of the array -/
+theorem to_dnf_sem (A : Arr) (n : Nat) (h : Red A n) (hn : numVars A = n) :
+    ∃ cs, toDnf A = .ok cs ∧ (∀ c ∈ cs, InRange n c) ∧ ∀ v, dnfFn cs v = den A v := toDnf_red h hn
+
+/-- `to_cnf` of a reduced array -/
+theorem to_cnf_sem (A : Arr) (n : Nat) (h : Red A n) (hn : numVars A = n) :
+    ∃ cs, toCnf A = .ok cs ∧ (∀ c ∈ cs, InRange n c) ∧ ∀ v, cnfFn cs v = den A v := toCnf_red h hn
+
+/-- the one-node `false` Bdd (not a `Red` array: it has no `one` terminal) -/
+theorem to_dnf_false (n : Nat) : toDnf (mkFalse n) = .ok [] := toDnf_mkFalse n
+theorem to_cnf_false (n : Nat) : toCnf (mkFalse n) = .ok [[]] := toCnf_mkFalse n
+
+/-! ### round trips: for every canonical `b`, rebuilding from the extracted normal form returns `b` itself -/
+
+theorem mkDnf_nil (n : Nat) : mkDnf n [] = .ok (mkFalse n) := by
+  unfold mkDnf; cases n <;> rfl
+
+/-- `mk_dnf(to_dnf(b)) == b` (structural equality of the arrays) -/
+theorem dnf_roundtrip (n : Nat) (f : (Nat → Bool) → Bool) (b : Arr) (hb : b = canon n f) (hf : Dep n f) :
+    ∃ cs, toDnf b = .ok cs ∧ mkDnf n cs = .ok b := by
+  have s : Sem n b f := ⟨hb, hf⟩
+  rcases s.cases with ⟨e, _⟩ | ⟨hred, _, _⟩
+  · rw [e]; exact ⟨[], toDnf_mkFalse n, mkDnf_nil n⟩
+  · obtain ⟨cs, e, hr, hsem⟩ := toDnf_red hred s.numVars
+    obtain ⟨r, e', hrc, _⟩ := mk_dnf_spec n cs hr
+    refine ⟨cs, e, ?_⟩
+    rw [e', hrc, hb]
+    congr 1
+    exact canon_congr (fun v => by rw [hsem v, s.den v])
+
+/-- `mk_cnf(to_cnf(b)) == b` -/
+theorem cnf_roundtrip (n : Nat) (f : (Nat → Bool) → Bool) (b : Arr) (hb : b = canon n f) (hf : Dep n f) :
+    ∃ cs, toCnf b = .ok cs ∧ mkCnf n cs = .ok b := by
+  have s : Sem n b f := ⟨hb, hf⟩
+  rcases s.cases with ⟨e, hfalse⟩ | ⟨hred, _, _⟩
+  · rw [e]
+    refine ⟨[[]], toCnf_mkFalse n, ?_⟩
+    obtain ⟨r, e', hrc, _⟩ := mk_cnf_spec n [[]] (by
+      intro c hc x bb hg
+      rw [List.mem_singleton] at hc; subst hc
+      rw [get_nil] at hg; cases hg)
+    rw [e', hrc, (sem_mkFalse n).eq]
+    congr 1
+  · obtain ⟨cs, e, hr, hsem⟩ := toCnf_red hred s.numVars
+    obtain ⟨r, e', hrc, _⟩ := mk_cnf_spec n cs hr
+    refine ⟨cs, e, ?_⟩
+    rw [e', hrc, hb]
+    congr 1
+    exact canon_congr (fun v => by rw [hsem v, s.den v])
+
+/-! ### non-vacuity -/
+
+/-- `x0 ∧ ¬x2` as a raw vector of length 3, `¬x1` as a vector of length 2 (shorter than `num_vars`), and the same
+    clause again with a trailing `None` (equal under `PartialEq`, different as vectors) -/
+def exC1 : PVal := [some true, none, some false]
+def exC2 : PVal := [none, some false]
+def exC2' : PVal := [none, some false, none]
+
+theorem exC1_inRange : InRange 3 exC1 := by
+  intro x b h
+  match x with
+  | 0 | 1 | 2 => omega
+  | x + 3 => simp [exC1, PVal.get] at h
+theorem exC2_inRange : InRange 3 exC2 := by
+  intro x b h
+  match x with
+  | 0 | 1 => omega
+  | x + 2 => simp [exC2, PVal.get] at h
+theorem exC2'_inRange : InRange 3 exC2' := by
+  intro x b h
+  match x with
+  | 0 | 1 | 2 => omega
+  | x + 3 => simp [exC2', PVal.get] at h
+
+/-- the hypotheses of `mk_dnf_spec` are satisfiable by a list with a duplicate of another vector length -/
+example : ∃ r, mkDnf 3 [exC1, exC2, exC2'] = .ok r ∧ r = canon 3 (dnfFn [exC1, exC2, exC2']) ∧ numVars r = 3 ∧
+    ∀ v, den r v = dnfFn [exC1, exC2, exC2'] v :=
+  mk_dnf_spec 3 _ (by
+    intro c hc
+    simp only [List.mem_cons, List.not_mem_nil, or_false] at hc
+    rcases hc with rfl | rfl | rfl
+    · exact exC1_inRange
+    · exact exC2_inRange
+    · exact exC2'_inRange)
+
+/-- … and the canonical array is a concrete non-trivial object: `¬x1 ∨ (x0 ∧ ¬x2)` -/
+example : canon 3 (dnfFn [exC1, exC2, exC2']) =
+    #[⟨3, 0, 0⟩, ⟨3, 1, 1⟩, ⟨2, 1, 0⟩, ⟨1, 1, 2⟩, ⟨1, 1, 0⟩, ⟨0, 4, 3⟩] := by decide
+
+/-- a clause with a foreign variable: the constructors panic -/
+example : mkConjClause 2 exC1 = .panic assertIndex ∧ mkDisjClause 2 exC1 = .panic assertIndex :=
+  (clause_ctor_spec 2 exC1).2 (by
+    intro h
+    have := h 2 false (by simp [exC1, PVal.get])
+    omega)
+
+theorem exFn_dep : Dep 3 (dnfFn [exC1, exC2]) :=
+  dnfFn_dep (by
+    intro c hc
+    simp only [List.mem_cons, List.not_mem_nil, or_false] at hc
+    rcases hc with rfl | rfl
+    · exact exC1_inRange
+    · exact exC2_inRange)
+
+/-- the round trips apply to a concrete non-constant canonical array -/
+example : ∃ cs, toDnf (canon 3 (dnfFn [exC1, exC2])) = .ok cs ∧ mkDnf 3 cs = .ok (canon 3 (dnfFn [exC1, exC2])) :=
+  dnf_roundtrip 3 _ _ rfl exFn_dep
+example : ∃ cs, toCnf (canon 3 (dnfFn [exC1, exC2])) = .ok cs ∧ mkCnf 3 cs = .ok (canon 3 (dnfFn [exC1, exC2])) :=
+  cnf_roundtrip 3 _ _ rfl exFn_dep
+
 end B.Props.C10
